@@ -139,6 +139,8 @@ def sv(v):
         return {k: sv(x) for k, x in v.d.items()}
     if isinstance(v, UFun):
         return UFunView(v)
+    if isinstance(v, EnumVal):
+        return v.value  # enum members are seen by specs as their integer values (declaration order, auto())
     return v
 
 
@@ -460,6 +462,7 @@ class Exec:
                 nret += 1
                 result = payload if kind == "return" else None
                 Eo = SpecEnv(s.env, old=s.roots["old"], result=result)
+                self.spec_ctx(s)
                 for ename, fn in c.ensures:
                     goal = self._spec_bool(fn(Eo), f"ensures {ename}")
                     self.prove(s, f"{short(vname)}/ensures/{ename}", goal, "ensures", node.lineno)
@@ -484,6 +487,8 @@ class Exec:
         self.npaths += len(outs)
         for o in self.obls[n0:]:
             o.extra["vname"] = vname
+            if c.options.get("timeout_ms"):
+                o.extra["timeout_ms"] = c.options["timeout_ms"]
         return self.obls[n0:]
 
     def _bind_defaults(self, node, st, mod):
@@ -500,6 +505,15 @@ class Exec:
                 st.env[a.arg] = self.eval(d, st, mod)
 
     # ---------------------------------------------------------------- obligations
+
+    def spec_ctx(self, st):
+        """contracts that need engine services (prefix sums) read them from contracts.loads._SumCtx"""
+        try:
+            from contracts.loads import _SumCtx
+
+            _SumCtx.ex, _SumCtx.st = self, st
+        except Exception:
+            pass
 
     def _spec_bool(self, v, what):
         if isinstance(v, bool):
@@ -552,6 +566,17 @@ class Exec:
 
     def input_syms_for(self, qual):
         return self.input_syms
+
+    def provable(self, st, cond, timeout_ms=800):
+        """cheap validity check under the quantifier-free part of the path condition (used only to simplify terms)"""
+        if isinstance(cond, bool):
+            return cond
+        sv_ = z3.Solver()
+        sv_.set("timeout", timeout_ms)
+        sv_.add(*self.axioms)
+        sv_.add(*[p for p in st.pc if not _has_quant(p)])
+        sv_.add(z3.Not(cond))
+        return sv_.check() == z3.unsat
 
     def feasible(self, pc):
         self.feas_calls += 1
@@ -1684,6 +1709,8 @@ class Exec:
             raise VCError(f"line {getattr(node, 'lineno', '?')}: object of class {o.cls} has no field/method {attr} (shape in the sidecar is incomplete)")
         if isinstance(o, Builtin):
             return Builtin(f"{o.name}.{attr}")
+        if isinstance(o, str) and attr in ("upper", "lower", "strip"):
+            return libmodels.UFunM(lambda ex_, st_, args, kwargs, node_, o=o, attr=attr: getattr(o, attr)())
         if isinstance(o, _SuperRef):
             cd = self.prog.module(o.module).classes[o.cls]
             for b in cd.bases:
